@@ -77,17 +77,17 @@ impl<'a> GeneratorState<'a> {
                 match right {
                     ExprType::Immediate(r) => {
                         match op {
-                            Operation::Add(_) => return Ok(ExprType::Immediate(l + r)),
-                            Operation::Sub(_) => return Ok(ExprType::Immediate(l - r)),
+                            Operation::Add(_) => return Ok(ExprType::Immediate(l.wrapping_add(*r))),
+                            Operation::Sub(_) => return Ok(ExprType::Immediate(l.wrapping_sub(*r))),
                             Operation::And(_) => return Ok(ExprType::Immediate(l & r)),
                             Operation::Or(_) => return Ok(ExprType::Immediate(l | r)),
                             Operation::Xor(_) => return Ok(ExprType::Immediate(l ^ r)),
-                            Operation::Mul(_) => return Ok(ExprType::Immediate(l * r)),
+                            Operation::Mul(_) => return Ok(ExprType::Immediate(l.wrapping_mul(*r))),
                             Operation::Div(_) => {
                                 if *r == 0 {
                                     return Err(self.compiler_state.compiler_error("Division by zero", pos));
                                 }
-                                return Ok(ExprType::Immediate(l / r))
+                                return Ok(ExprType::Immediate(l.wrapping_div(*r)))
                             },
                             _ => { return Err(self.compiler_state.compiler_error("Arithmetics is partially implemented", pos)); },
                         } 
@@ -379,6 +379,9 @@ impl<'a> GeneratorState<'a> {
             ExprType::Immediate(l) => {
                 match right {
                     ExprType::Immediate(r) => {
+                        if !(0..32).contains(r) {
+                            return Err(self.compiler_state.syntax_error("Shift count out of range", pos));
+                        }
                         match op {
                             Operation::Brs(_) => return Ok(ExprType::Immediate(l >> r)),
                             Operation::Bls(_) => return Ok(ExprType::Immediate(l << r)),
@@ -775,7 +778,7 @@ impl<'a> GeneratorState<'a> {
     pub(crate) fn generate_neg(&mut self, expr: &Expr, pos: usize, high_byte: bool) -> Result<ExprType, Error>
     {
         match expr {
-            Expr::Integer(i) => Ok(ExprType::Immediate(-*i)),
+            Expr::Integer(i) => Ok(ExprType::Immediate(i.wrapping_neg())),
             _ => {
                 let left = ExprType::Immediate(0);
                 let right = self.generate_expr(expr, pos, high_byte, false)?;
